@@ -246,6 +246,9 @@ func replayC02(raw []byte, st *Stats, wk *worker, lays []abs.VLayout, c18 bool) 
 	v.Dev = devs
 	specInvalid := len(viol) > 0
 	anyUnspecSilent := len(unspec) > 0
+	for r := range viol {
+		st.Add("violated/"+r, 1) // how often each rule is exercised by an invalid document
+	}
 	if specInvalid || len(v.Doc.Frags) >= 2 {
 		st.Distinct("distinct_nontrivial", string(mustJSON(v.Doc)))
 	}
